@@ -11,7 +11,7 @@ META = {
     "level": "proof",
     "trusted_base": ["Python ast parser", "gmpy2.f_mod_2exp(x, t) == x (mod 2^t)", "odd squares are 1 mod 8", "divmod(a, b): a = q*b + r",
                      "2-adic valuation: 2^t | e implies 2^(2t) | e^2", "pcstatic walker + polynomial normal form"],
-    "assumptions": ["the rational linear solver, completeness of the small-root finders, Sieve, PseudoAverage, Bias, UniformSumCdf and CombinedPValue numerics are not decided"],
+    "assumptions": ["the rational linear solver, completeness of the small-root finders, Sieve, PseudoAverage, UniformSumCdf and CombinedPValue numerics are not decided (Bias: its definition and summand count are, R-C19-BIAS)"],
     "explanation": ("Newton/Hensel loops are proved by a declared invariant plus a polynomial step identity and an exponent-growth inequality; the four square roots "
                     "by identities modulo 2^k; DivmodRounded by the divmod axiom; root finders release a value only under the divisibility test on f(root) of the same root."),
 }
@@ -31,6 +31,8 @@ def run(ctx):
   rule_divmod(ctx)
   rule_roots(ctx)
   rule_cf(ctx)
+  rule_bias(ctx)
+  ctx.expect("R-C19-BIAS", 2, "statistic + summand count")
   ctx.expect("R-C19-HENSEL", 8, "two loops x (base, identity, exponent, reduction)")
   ctx.expect("R-C19-SQRT", 3, "roots, solvability, small k")
   ctx.expect("R-C19-DIVMOD", 2, "identity + rounding offset")
@@ -400,3 +402,116 @@ def rule_cf(ctx):
   ctx.record(R, f.where, "Euclid recurrence", ok and okc and oki, why or ("(a, b) <- (b, a mod b); (r, s) <- (r*q + s, r); (t, u) <- (t*q + u, t) with q = a // b, start (1, 0, 0, 1), while b"
                                                                          if okc and oki else "loop condition / initial convergents changed"))
   ctx.record(R, f.where, "appends (q, r, t) after the update", oka, "one triple (quotient, numerator, denominator) per step" if oka else "appended triple is not (q, r', t')")
+
+
+# ------------------------------------------------------------------ BIAS: lattice_suite.Bias equals its definition
+def rule_bias(ctx):
+  R = "R-C19-BIAS"
+  repo = ctx.repo
+  from pcstatic import accum
+  f, w = walk(repo, "randomness_tests.lattice_suite", "Bias")
+  sample, n, transforms = [P("param", x) for x in f.params()[:3]]
+  par = accum.parents(f.node)
+  calls = [e for e in w.events if e.kind == "call" and e.data["name"] == "repo:randomness_tests.util:UniformSumCdf"]
+  rets = [t for t in w.terminals if t[0] == "return"]
+  if len(calls) != 1 or len(rets) != 1:
+    raise Incomplete("Bias: expected one UniformSumCdf call and one return", f.where)
+  call = calls[0]
+  cnt, x = [as_poly(a) for a in call.data["args"][:2]]
+  okr = not isinstance(rets[0][1], Seq) and as_poly(rets[0][1]) == as_poly(call.data["value"])
+  # the statistic: x = 2 * T / n with T the accumulated sum
+  T = None
+  xa = x.as_atom()
+  if xa is not None and xa.kind == "tdiv" and as_poly(xa.args[1]) == n:
+    half = as_poly(xa.args[0])
+    for a in half.atoms():
+      if a.kind == "sym" and (half - Poly.atom(a) * 2).is_zero():
+        T = Poly.atom(a)
+  augs = {}
+  for e in w.events:
+    if e.kind == "augassign":
+      augs.setdefault(e.data["name"], {})[id(e.node)] = e
+  inits = {e.data["name"]: e for e in w.events if e.kind == "assign" and not accum.enclosing_fors(f.node, e.node, par)[0]}
+  tname = None
+  if T is not None:
+    for info in w.loop_info.values():
+      for vis in info["visits"]:
+        for nm, sv in vis["after_env"].items():
+          if not isinstance(sv, Seq) and as_poly(sv) == T and not accum.enclosing_fors(f.node, info["node"], par)[0]:
+            tname = nm
+  if tname is None or tname not in augs:
+    ctx.violation(R, f.where, "statistic = 2 * sum / n", "the second argument of UniformSumCdf is not 2 * (accumulated sum) / n")
+    return
+  sites = list(augs[tname].values())
+  ok1, why1 = True, []
+  n_terms = Poly.const(0)
+  i0 = inits.get(tname)
+  if i0 is None or not (isinstance(i0.data["value"], (Const, Poly)) and as_poly(i0.data["value"]).is_zero()):
+    ok1 = False
+    why1.append("the sum does not start at 0")
+  for e in sites:
+    if not isinstance(e.node.op, ast.Add):
+      ok1 = False
+      why1.append("sum updated with a non-additive operator")
+      continue
+    ex = accum.executions(w, f.node, e.node, par)
+    if ex is None:
+      ok1 = None if ok1 else ok1
+      why1.append("the number of summands depends on control flow")
+      continue
+    n_terms = n_terms + ex
+    # term = min(r, n - r), r = (a*s + b) % n over (s in sample) x ((a, b) in transforms)
+    term = as_poly(e.data["rhs"]).as_atom()
+    good = False
+    if term is not None and term.kind == "min" and len(term.args) == 2:
+      for u, v in ((term.args[0], term.args[1]), (term.args[1], term.args[0])):
+        ua = u.as_atom()
+        if ua is not None and ua.kind == "mod" and as_poly(ua.args[1]) == n and (v - (n - u)).is_zero():
+          lin = as_poly(ua.args[0])
+          chain, _ = accum.enclosing_fors(f.node, e.node, par)
+          ks = {}
+          for lp in chain:
+            info = [i for i in w.loop_info.values() if i["node"] is lp][0]
+            ks[repr(as_poly(info["iter"]))] = as_poly(info["visits"][0]["k"])
+          ks_s, ks_t = ks.get(repr(sample)), ks.get(repr(transforms))
+          if ks_s is not None and ks_t is not None:
+            s_i = sym.mk("idx", sample, ks_s)
+            tr = sym.mk("idx", transforms, ks_t)
+            want = sym.mk("idx", tr, Poly.const(0)) * s_i + sym.mk("idx", tr, Poly.const(1))
+            good = (lin - want).is_zero()
+    if not good:
+      ok1 = False
+      why1.append("summand is not min(r, n - r) with r = (a*s + b) % n for s in sample, (a, b) in transforms")
+  ctx.record(R, f.where, "T = sum over sample x transforms of the distance of a*s + b to the nearest multiple of n", ok1, "; ".join(sorted(set(why1))) or
+             "starts at 0, one additive update per (s, (a, b)) pair, summand min(r, n - r), r = (a*s + b) %% n; %r summands" % (n_terms,))
+  # the count handed to the Irwin-Hall CDF equals the number of summands
+  cval = cnt
+  ca = cnt.as_atom()
+  how = "expression"
+  if ca is not None and ca.kind == "sym":
+    cname = None
+    for info in w.loop_info.values():
+      for vis in info["visits"]:
+        for nm, sv in vis["after_env"].items():
+          if not isinstance(sv, Seq) and as_poly(sv) == cnt and not accum.enclosing_fors(f.node, info["node"], par)[0]:
+            cname = nm
+    cval = None
+    if cname is not None and cname in augs:
+      i1 = inits.get(cname)
+      tot = as_poly(i1.data["value"]) if i1 is not None and isinstance(i1.data["value"], (Const, Poly)) else None
+      for e in augs[cname].values():
+        ex = accum.executions(w, f.node, e.node, par)
+        step = as_poly(e.data["rhs"]) if not isinstance(e.data["rhs"], Seq) else None
+        if tot is None or ex is None or step is None or not isinstance(e.node.op, ast.Add) or any(a.kind in ("sym", "idx") for a in step.all_atoms()):
+          tot = None
+          break
+        tot = tot + ex * step
+      cval = tot
+      how = "counter `%s`" % cname
+  if cval is None or ok1 is None:
+    ctx.incomplete(R, f.where, "number of uniform summands", "the first argument of UniformSumCdf could not be resolved to a count")
+  else:
+    same = (cval - n_terms).is_zero()
+    ctx.record(R, f.where, "number of uniform summands", same and okr, ("UniformSumCdf is evaluated for %r summands (%s) = number of terms in T; its value is returned" % (cval, how)) if same and okr else
+               ("UniformSumCdf is evaluated for %r summands (%s) but T adds %r terms: the p-value is taken from the wrong Irwin-Hall distribution" % (cval, how, n_terms)
+                if not same else "the p-value returned is not the UniformSumCdf value"))
